@@ -15,9 +15,15 @@ package lifecycle
 //verif:def intentional() = result_of("(*Bool).Load@intentionalStop", 0)
 
 //verif:closure of (*Service).runPipeline calling (*Service).recoverPipeline (workersWg, rp, startupDone, s) (ret)
+//verif:assume !is_fatal(global("tomb.ErrStillAlive")) because "tomb.ErrStillAlive is a plain sentinel created with errors.New; it contains no fatal marker"
 //verif:call[recover-only-transient] (*Service).recoverPipeline requires err$1 != global("tomb.ErrStillAlive") && !is_fatal(err$1) && called("(*Bool).Load@isGracefulShutdown") && !graceful() && called("(*Bool).Load@intentionalStop") && !intentional() && !called("PipelineService.UpdateStatus")
-//verif:call[status-matches-cause] PipelineService.UpdateStatus requires (arg2 == StatusDegraded ==> is_fatal(err$1) || called("(*Service).recoverPipeline") && result_of("(*Service).recoverPipeline", 0) != nil) && (arg2 == StatusUserStopped ==> !graceful() || called("(*Bool).Load@intentionalStop") && intentional()) && arg2 != StatusRunning && arg2 != StatusRecovering
+//verif:call[status-matches-cause] PipelineService.UpdateStatus requires (arg2 == StatusDegraded ==> is_fatal(err$1) || called("(*Service).recoverPipeline") && result_of("(*Service).recoverPipeline", 0) != nil) && (arg2 == StatusUserStopped ==> !graceful() || called("(*Bool).Load@intentionalStop") && intentional()) && arg2 != StatusRunning && arg2 != StatusRecovering && (is_fatal(result_of("tomb.(*Tomb).Err", 0)) ==> arg2 == StatusDegraded)
 //verif:call[record-result-before-unpublishing] csync.(*Map).Delete requires called("csync.(*Map).Set")
 //verif:ensures[recovered-run-is-left-alone] called("(*Service).recoverPipeline") && result_of("(*Service).recoverPipeline", 0) == nil ==> ret == nil && !called("csync.(*Map).Delete") && !called("PipelineService.UpdateStatus") && !called("(*Service).notify")
 //verif:ensures[one-terminal-write] count("PipelineService.UpdateStatus") <= 1
 //verif:ensures[recover-at-most-once] count("(*Service).recoverPipeline") <= 1
+
+// C10: the worker goroutine hands its ROOT CAUSE to the tomb before the (possibly
+// slow) worker close, so a sibling's later, collateral error cannot win the tomb.
+//verif:closure of (*Service).runPipeline calling (*Worker).Do (workersWg, registered, w, ctx, s, rp, sourceID) (ret)
+//verif:call[root-cause-wins-the-tomb] (*Worker).Close requires result_of("(*Worker).Do", 0) != nil ==> called("tomb.(*Tomb).Kill")
